@@ -111,7 +111,9 @@ CLAIMED = {
              "parenthesisation, and that the named families outside the grammar are rejected. Both renderings of every AST and "
              "every single-token deletion / duplication / replacement / swap of the representative policies (32k sequences) are "
              "emitted with the specification parser's verdict; the harness lays them out with random whitespace and comments "
-             "and compares PolicyList.UnmarshalCedar / Policy.UnmarshalCedar: same acceptance, same AST node by node.",
+             "and compares PolicyList.UnmarshalCedar / Policy.UnmarshalCedar: same acceptance, same AST node by node. Texts with "
+             "multi-byte characters are parsed again behind n bytes of leading white space or comment, n cutting the character at "
+             "every inner byte boundary by a multiple of the tokenizer's 1024-byte read buffer: the same list.",
         design_ref="DESIGN.md 4 C07",
         note=TRUSTED + "The grammar is a transcription of the documented one (trailing commas accepted as in the reference "
              "grammar, no limit on stacked unary operators, extension-function arity not checked at parse time). Layouts are "
@@ -288,7 +290,8 @@ CLAIMED = {
              "specification's reading of the RECORDED encoding is the datum, the real decoder returns the datum, the decoder's "
              "re-encoding repeats the bytes, and every alternative spelling (entity references flipped explicit <-> implicit; bare "
              "string, {fn,arg} and __extn for typed extension decoders; both EntityUID spellings) is the same datum for the "
-             "specification and for the real decoder.",
+             "specification and for the real decoder. Every document and respelling is also decoded from its byte-level "
+             "respelling (all strings and keys \\u-escaped, white space between tokens): same answer as for the plain bytes.",
         design_ref="DESIGN.md 4 C13",
         note=TRUSTED + "Inputs are seeded random and boundary data, not an exhaustive universe. The decoder's fallback for malformed "
              "escape payloads is followed by the specification (named deviation). Also covered: schema-guided coercion "
